@@ -1,5 +1,6 @@
 import RomeaModel.Derivatives
 import RomeaProofs.RealInst
+import RomeaProofs.Lemmas.C12Angles
 import Mathlib.Data.Matrix.Mul
 import Mathlib.Data.Matrix.Basic
 import Mathlib.Algebra.BigOperators.Fin
@@ -18,8 +19,9 @@ import Mathlib.Tactic.LinearCombination
 
 Property theorems about the model of `RomeaModel/Derivatives.lean`, over `ℝ`.  No totalised operation is
 on the path of parts (a), (b), (d) except the matrix inverse in (d), whose guard (`G` invertible: `inv G * G = 1`)
-is an explicit hypothesis; in (c) the divisions of the Jacobian are not used by `psd_preserved` (any `J`)
-and are evaluated at concrete points in the witnesses.
+is an explicit hypothesis; in (c) `psd_preserved` holds for any `J`; the divisions and the square root in the
+Jacobian rows are guarded by the hypotheses of `jacobian_correct_roll/_pitch/_yaw` (the denominators are non-zero
+exactly under them: `M₂₁² + M₂₂² ≠ 0`, `1 - M₂₀² > 0`, `M₀₀² + M₁₀² ≠ 0`), `asin` by `|M₂₀| < 1`.
 
 What is proved:
 
@@ -32,11 +34,15 @@ What is proved:
     repository's tests pin the spurious entries.
 (b) `dRTdAngles` column `k` is `dRdAngle_k · T` (`dRTdAngles_columns`), hence inherits (a)
     (`dRTdAngles_eq_true_plus_spurious`, `true_derivative_rotated_vector`).
-(c) The propagated covariance is `J C Jᵀ` and symmetric PSD for ANY `J` (`propagate_eq`, `psd_preserved`);
-    the Jacobian as written is not the Jacobian of the pose map: witnesses for the position block and the pitch
-    row (`jacobian_position_block_wrong`, `jacobian_pitch_row_wrong`), while `jacobianTrue` is right there.
-    The full statement `jacobianTrue = Jacobian of the pose map (entrywise HasDerivAt)` is left to the
-    finite-difference tie (see the comment at the end of part (c)).
+(c) The propagated covariance is `J C Jᵀ` (`propagate_eq`, `pose_covariance_eq`) and symmetric PSD for ANY `J`
+    (`psd_preserved`).  The Jacobian in the code (as repaired by /repo 67bbb47) IS the Jacobian of the library's own
+    pose map, entry by entry with `HasDerivAt`: `jacobian_correct_position_position` (= `R`),
+    `jacobian_correct_position_orientation` (= 0), `jacobian_correct_orientation_position` (= 0),
+    `jacobian_correct_roll / _pitch / _yaw` — the angle rows hold wherever the corresponding output angle is not `0`
+    (there `between0And2Pi` makes the library's map jump between `0` and `2π`, so no derivative exists) and, for the
+    pitch, away from gimbal lock `|M₂₀| = 1`; no other restriction (in particular the branch cut of `atan2` is covered).
+    The Jacobian that was in the code before the repair was wrong: witnesses `jacobian_before_fix_position_block_wrong`,
+    `jacobian_before_fix_pitch_row_wrong`.
 (d) `solver_covariance`: `computeEstimateCovariance = variance • A (JᵀJ)⁻¹ Aᵀ` for a diagonal preconditioner `A`;
     for a non-symmetric preconditioner the formula in the code (`Aᵀ G⁻¹ A`) is a different matrix
     (`solver_covariance_needs_symmetric_preconditioner`).
@@ -135,33 +141,33 @@ private theorem mul3_one_right (A : Mat 3 3 ℝ) : mul3 A (fun i j => if i = j t
 private theorem mul3_assoc (A B C : Mat 3 3 ℝ) : mul3 (mul3 A B) C = mul3 A (mul3 B C) := by
   funext i j; simp only [mul3]; ring
 
-/-- angle triple with one component replaced -/
-def setAngle (o : Vec 3 ℝ) (k : Fin 3) (t : ℝ) : Vec 3 ℝ := fun i => if i = k then t else o i
+/-- a 3-vector (angle triple, position) with component `k` replaced by `t` -/
+def upd (o : Vec 3 ℝ) (k : Fin 3) (t : ℝ) : Vec 3 ℝ := fun i => if i = k then t else o i
 
 /-- `∂R/∂roll`: every entry of the reported `R`, as a function of the roll angle, has the corresponding entry of
     `(trueDerivs o).1` as its derivative -/
 theorem true_derivative_roll (o : Vec 3 ℝ) (i j : Fin 3) :
-    HasDerivAt (fun t => (smartInit (setAngle o 0 t)).R.get i j) ((trueDerivs o).1.get i j) (o 0) := by
+    HasDerivAt (fun t => (smartInit (upd o 0 t)).R.get i j) ((trueDerivs o).1.get i j) (o 0) := by
   have h := hasDerivAt_mul3_mid (mul3 (rotZ (Real.cos (o 2)) (Real.sin (o 2))) (rotY (Real.cos (o 1)) (Real.sin (o 1))))
     (fun i j => if i = j then 1 else 0) (fun t => rotX (Real.cos t) (Real.sin t)) _ (o 0) (hasDerivAt_rotX (o 0)) i j
   simp only [mul3_one_right] at h
-  simpa [smartInit, trueDerivs, setAngle] using h
+  simpa [smartInit, trueDerivs, upd] using h
 
 /-- `∂R/∂pitch` -/
 theorem true_derivative_pitch (o : Vec 3 ℝ) (i j : Fin 3) :
-    HasDerivAt (fun t => (smartInit (setAngle o 1 t)).R.get i j) ((trueDerivs o).2.1.get i j) (o 1) := by
+    HasDerivAt (fun t => (smartInit (upd o 1 t)).R.get i j) ((trueDerivs o).2.1.get i j) (o 1) := by
   have h := hasDerivAt_mul3_mid (rotZ (Real.cos (o 2)) (Real.sin (o 2))) (rotX (Real.cos (o 0)) (Real.sin (o 0)))
     (fun t => rotY (Real.cos t) (Real.sin t)) _ (o 1) (hasDerivAt_rotY (o 1)) i j
-  simpa [smartInit, trueDerivs, setAngle] using h
+  simpa [smartInit, trueDerivs, upd] using h
 
 /-- `∂R/∂yaw` -/
 theorem true_derivative_yaw (o : Vec 3 ℝ) (i j : Fin 3) :
-    HasDerivAt (fun t => (smartInit (setAngle o 2 t)).R.get i j) ((trueDerivs o).2.2.get i j) (o 2) := by
+    HasDerivAt (fun t => (smartInit (upd o 2 t)).R.get i j) ((trueDerivs o).2.2.get i j) (o 2) := by
   have h := hasDerivAt_mul3_mid (fun i j => if i = j then 1 else 0)
     (mul3 (rotY (Real.cos (o 1)) (Real.sin (o 1))) (rotX (Real.cos (o 0)) (Real.sin (o 0))))
     (fun t => rotZ (Real.cos t) (Real.sin t)) _ (o 2) (hasDerivAt_rotZ (o 2)) i j
   simp only [mul3_one_left] at h
-  simpa [smartInit, trueDerivs, setAngle, mul3_assoc] using h
+  simpa [smartInit, trueDerivs, upd, mul3_assoc] using h
 
 /-! ### the spurious terms never vanish: the reported matrices are wrong at EVERY angle triple -/
 
@@ -221,7 +227,7 @@ theorem spurious_yaw_ne_zero (o : Vec 3 ℝ) : E 2 * Ry (o 1) * Rx (o 0) ≠ 0 :
     the roll angle at all — the reported value is not the derivative. -/
 theorem reported_roll_not_derivative_at_zero :
     (smartInit (fun _ => (0 : ℝ))).dRdX.get 0 0 = 1 ∧
-    ¬ HasDerivAt (fun t => (smartInit (setAngle (fun _ => 0) 0 t)).R.get 0 0)
+    ¬ HasDerivAt (fun t => (smartInit (upd (fun _ => 0) 0 t)).R.get 0 0)
         ((smartInit (fun _ => (0 : ℝ))).dRdX.get 0 0) 0 := by
   have h1 : (smartInit (fun _ => (0 : ℝ))).dRdX.get 0 0 = 1 := by
     simp [smartInit, mul3, rotZ, rotY, dRotXCode]
@@ -260,9 +266,9 @@ theorem dRTdAngles_eq_true_plus_spurious (o T : Vec 3 ℝ) (i : Fin 3) :
 
 /-- the true derivative of the rotated vector `R T` with respect to each angle is `trueDeriv_k · T` -/
 theorem true_derivative_rotated_vector (o T : Vec 3 ℝ) (i : Fin 3) :
-    HasDerivAt (fun t => (Matrix.of (smartInit (setAngle o 0 t)).R.get *ᵥ T) i) ((Matrix.of (trueDerivs o).1.get *ᵥ T) i) (o 0) ∧
-    HasDerivAt (fun t => (Matrix.of (smartInit (setAngle o 1 t)).R.get *ᵥ T) i) ((Matrix.of (trueDerivs o).2.1.get *ᵥ T) i) (o 1) ∧
-    HasDerivAt (fun t => (Matrix.of (smartInit (setAngle o 2 t)).R.get *ᵥ T) i) ((Matrix.of (trueDerivs o).2.2.get *ᵥ T) i) (o 2) := by
+    HasDerivAt (fun t => (Matrix.of (smartInit (upd o 0 t)).R.get *ᵥ T) i) ((Matrix.of (trueDerivs o).1.get *ᵥ T) i) (o 0) ∧
+    HasDerivAt (fun t => (Matrix.of (smartInit (upd o 1 t)).R.get *ᵥ T) i) ((Matrix.of (trueDerivs o).2.1.get *ᵥ T) i) (o 1) ∧
+    HasDerivAt (fun t => (Matrix.of (smartInit (upd o 2 t)).R.get *ᵥ T) i) ((Matrix.of (trueDerivs o).2.2.get *ᵥ T) i) (o 2) := by
   simp only [Matrix.mulVec, dotProduct, Fin.sum_univ_three, Matrix.of_apply]
   refine ⟨?_, ?_, ?_⟩
   · exact (((true_derivative_roll o i 0).mul_const _).add ((true_derivative_roll o i 1).mul_const _)).add
@@ -318,14 +324,155 @@ theorem jacobian_before_fix_pitch_row_wrong :
       (fun k => match k with | 0 => d.1.get | 1 => d.2.1.get | 2 => d.2.2.get)).get 4 4 = 1 := by
   simp [jacobianBeforeFix, jacobian, dRotation, smartInit, trueDerivs, id3, mul3, dot3, rotZ, rotY, rotX, dRotYCode, dRotYTrue]
 
-/- Full statement not proved here (S in DESIGN.md):
-   `jacobian_correct`: for a rotation `R`, a pose attitude `o` and `M = R · Rz Ry Rx` with `|M₂₀| < 1`, and away from
-   the wrap points of `between0And2Pi` (where the library's own pose map is discontinuous), every entry of
-   `jacobianTrue R M (R · trueDerivs o)` is the partial derivative (`HasDerivAt`) of the corresponding output of
-   `poseMulTrue` with respect to the corresponding input.  The position rows are immediate (`R p + T` is linear);
-   the angle rows need the derivatives of `Complex.arg` and `Real.arcsin` along a curve.  Until then this equality is
-   covered by the correspondence check, where the harness prints Richardson-extrapolated central differences of the
-   C++ pose map and the driver prints `jacobianTrue` (compared to 1e-6 relative on every sampled pose). -/
+/-! ### the Jacobian in the code is the Jacobian of the library's own pose map (entry by entry, `HasDerivAt`)
+
+The pose map is `(p, o) ↦ (R p + T, rotation3DToEulerAngles (R · Rz(o₂) Ry(o₁) Rx(o₀)))`; its outputs are the first
+two components of `poseMul`, its Jacobian the fourth.  The three angle outputs are normalised into `[0, 2π)` by
+`between0And2Pi`, so the map is discontinuous where an output angle is `0` (it jumps to `2π`): there no Jacobian
+exists, and the hypotheses below exclude exactly those points (and gimbal lock `|M₂₀| = 1`). -/
+
+/-- indices of the position and of the orientation components in the 6-vector `(x, y, z, roll, pitch, yaw)` -/
+def lo : Fin 3 → Fin 6 := ![0, 1, 2]
+def hi : Fin 3 → Fin 6 := ![3, 4, 5]
+
+/-- the true partial derivative of `Rz Ry Rx` with respect to angle `k` -/
+noncomputable def trueD (o : Vec 3 ℝ) (k : Fin 3) : Mat 3 3 ℝ :=
+  match k with
+  | 0 => (trueDerivs o).1.get
+  | 1 => (trueDerivs o).2.1.get
+  | 2 => (trueDerivs o).2.2.get
+
+private theorem upd_self (o : Vec 3 ℝ) (k : Fin 3) : upd o k (o k) = o := by
+  funext i; by_cases h : i = k <;> simp [upd, h]
+
+private theorem true_derivative (o : Vec 3 ℝ) (k i j : Fin 3) :
+    HasDerivAt (fun t => (smartInit (upd o k t)).R.get i j) (trueD o k i j) (o k) := by
+  fin_cases k
+  · exact true_derivative_roll o i j
+  · exact true_derivative_pitch o i j
+  · exact true_derivative_yaw o i j
+
+/-- `M(o) = L · Rz Ry Rx` and its partial derivatives -/
+private theorem hasDerivAt_M (L : Mat 3 3 ℝ) (o : Vec 3 ℝ) (k a b : Fin 3) :
+    HasDerivAt (fun t => mul3 L (smartInit (upd o k t)).R.get a b) (mul3 L (trueD o k) a b) (o k) := by
+  simp only [mul3]
+  exact (((true_derivative o k 0 b).const_mul _).add ((true_derivative o k 1 b).const_mul _)).add
+    ((true_derivative o k 2 b).const_mul _)
+
+private theorem pos_closed (rotOf : Mat 3 3 ℝ → Mat 3 3 ℝ) (L : Mat 3 3 ℝ) (T p o : Vec 3 ℝ) (C : Mat 6 6 ℝ)
+    (hL : rotOf L = L) (i : Fin 3) :
+    (poseMul rotOf L T p o C).1.get i = L i 0 * p 0 + L i 1 * p 1 + L i 2 * p 2 + T i := by
+  simp [poseMul, hL, mulVec3]
+
+private theorem ori_closed (rotOf : Mat 3 3 ℝ → Mat 3 3 ℝ) (L : Mat 3 3 ℝ) (T p o : Vec 3 ℝ) (C : Mat 6 6 ℝ)
+    (hL : rotOf L = L) :
+    (poseMul rotOf L T p o C).2.1.get = rotation3DToEulerAngles (mul3 L (smartInit o).R.get) := by
+  simp [poseMul, hL]
+
+private theorem jac_closed (rotOf : Mat 3 3 ℝ → Mat 3 3 ℝ) (L : Mat 3 3 ℝ) (T p o : Vec 3 ℝ) (C : Mat 6 6 ℝ)
+    (hL : rotOf L = L) :
+    (poseMul rotOf L T p o C).2.2.2.get =
+      (jacobian L (mul3 L (smartInit o).R.get) (fun k => mul3 L (trueD o k))).get := by
+  simp only [poseMul, dRotation, hL, tab_get]
+  congr 2
+  funext k
+  fin_cases k <;> rfl
+
+/-- **Block ∂position/∂position** `= R` -/
+theorem jacobian_correct_position_position (rotOf : Mat 3 3 ℝ → Mat 3 3 ℝ) (L : Mat 3 3 ℝ) (T p o : Vec 3 ℝ)
+    (C : Mat 6 6 ℝ) (hL : rotOf L = L) (i k : Fin 3) :
+    HasDerivAt (fun t => (poseMul rotOf L T (upd p k t) o C).1.get i)
+      ((poseMul rotOf L T p o C).2.2.2.get (lo i) (lo k)) (p k) := by
+  rw [jac_closed rotOf L T p o C hL]
+  simp only [pos_closed rotOf L T _ o C hL]
+  have hJ : (jacobian L (mul3 L (smartInit o).R.get) (fun k => mul3 L (trueD o k))).get (lo i) (lo k) = L i k := by
+    fin_cases i <;> fin_cases k <;> simp [jacobian, lo]
+  rw [hJ]
+  have hf : (fun t => L i 0 * upd p k t 0 + L i 1 * upd p k t 1 + L i 2 * upd p k t 2 + T i) =
+      fun t => L i k * t + (L i 0 * p 0 + L i 1 * p 1 + L i 2 * p 2 + T i - L i k * p k) := by
+    funext t; fin_cases k <;> simp [upd] <;> ring
+  rw [hf]
+  simpa using ((hasDerivAt_id (p k)).const_mul (L i k)).add_const
+    (L i 0 * p 0 + L i 1 * p 1 + L i 2 * p 2 + T i - L i k * p k)
+
+/-- **Block ∂position/∂orientation** `= 0` (the position does not depend on the attitude) -/
+theorem jacobian_correct_position_orientation (rotOf : Mat 3 3 ℝ → Mat 3 3 ℝ) (L : Mat 3 3 ℝ) (T p o : Vec 3 ℝ)
+    (C : Mat 6 6 ℝ) (hL : rotOf L = L) (i k : Fin 3) :
+    HasDerivAt (fun t => (poseMul rotOf L T p (upd o k t) C).1.get i)
+      ((poseMul rotOf L T p o C).2.2.2.get (lo i) (hi k)) (o k) := by
+  rw [jac_closed rotOf L T p o C hL]
+  simp only [pos_closed rotOf L T p _ C hL]
+  have hJ : (jacobian L (mul3 L (smartInit o).R.get) (fun k => mul3 L (trueD o k))).get (lo i) (hi k) = 0 := by
+    fin_cases i <;> fin_cases k <;> simp [jacobian, lo, hi, Deriv.zero]
+  rw [hJ]
+  exact hasDerivAt_const _ _
+
+/-- **Block ∂orientation/∂position** `= 0` -/
+theorem jacobian_correct_orientation_position (rotOf : Mat 3 3 ℝ → Mat 3 3 ℝ) (L : Mat 3 3 ℝ) (T p o : Vec 3 ℝ)
+    (C : Mat 6 6 ℝ) (hL : rotOf L = L) (i k : Fin 3) :
+    HasDerivAt (fun t => (poseMul rotOf L T (upd p k t) o C).2.1.get i)
+      ((poseMul rotOf L T p o C).2.2.2.get (hi i) (lo k)) (p k) := by
+  rw [jac_closed rotOf L T p o C hL]
+  simp only [ori_closed rotOf L T _ o C hL]
+  have hJ : (jacobian L (mul3 L (smartInit o).R.get) (fun k => mul3 L (trueD o k))).get (hi i) (lo k) = 0 := by
+    fin_cases i <;> fin_cases k <;> simp [jacobian, lo, hi, Deriv.zero]
+  rw [hJ]
+  exact hasDerivAt_const _ _
+
+/-- **Row ∂roll'/∂angles**, `roll' = between0And2Pi (atan2 (M₂₁, M₂₂))`, valid wherever `roll' ≠ 0`
+    (i.e. `(M₂₂, M₂₁)` not on the non-negative real axis; this also excludes gimbal lock, where `M₂₁ = M₂₂ = 0`) -/
+theorem jacobian_correct_roll (rotOf : Mat 3 3 ℝ → Mat 3 3 ℝ) (L : Mat 3 3 ℝ) (T p o : Vec 3 ℝ)
+    (C : Mat 6 6 ℝ) (hL : rotOf L = L) (k : Fin 3)
+    (hdom : mul3 L (smartInit o).R.get 2 2 < 0 ∨ mul3 L (smartInit o).R.get 2 1 ≠ 0) :
+    HasDerivAt (fun t => (poseMul rotOf L T p (upd o k t) C).2.1.get 0)
+      ((poseMul rotOf L T p o C).2.2.2.get (hi 0) (hi k)) (o k) := by
+  rw [jac_closed rotOf L T p o C hL]
+  simp only [ori_closed rotOf L T p _ C hL, rotation3DToEulerAngles]
+  have hx := hasDerivAt_M L o k 2 2
+  have hy := hasDerivAt_M L o k 2 1
+  have h := hasDerivAt_between0And2Pi_atan2 hx hy (by simpa [upd_self] using hdom)
+  simp only [upd_self] at h
+  convert h using 1
+  fin_cases k <;> simp [jacobian, hi] <;> ring
+
+/-- **Row ∂pitch'/∂angles**, `pitch' = between0And2Pi (-asin M₂₀)`, valid away from gimbal lock (`|M₂₀| < 1`) and
+    wherever `pitch' ≠ 0` (`M₂₀ ≠ 0`) -/
+theorem jacobian_correct_pitch (rotOf : Mat 3 3 ℝ → Mat 3 3 ℝ) (L : Mat 3 3 ℝ) (T p o : Vec 3 ℝ)
+    (C : Mat 6 6 ℝ) (hL : rotOf L = L) (k : Fin 3)
+    (hlo : -1 < mul3 L (smartInit o).R.get 2 0) (hhi : mul3 L (smartInit o).R.get 2 0 < 1)
+    (h0 : mul3 L (smartInit o).R.get 2 0 ≠ 0) :
+    HasDerivAt (fun t => (poseMul rotOf L T p (upd o k t) C).2.1.get 1)
+      ((poseMul rotOf L T p o C).2.2.2.get (hi 1) (hi k)) (o k) := by
+  rw [jac_closed rotOf L T p o C hL]
+  simp only [ori_closed rotOf L T p _ C hL, rotation3DToEulerAngles]
+  have hx := hasDerivAt_M L o k 2 0
+  have h := hasDerivAt_between0And2Pi_neg_asin hx (by simpa [upd_self] using hlo) (by simpa [upd_self] using hhi)
+    (by simpa [upd_self] using h0)
+  simp only [upd_self] at h
+  convert h using 1
+  fin_cases k <;> simp [jacobian, hi]
+
+/-- **Row ∂yaw'/∂angles**, `yaw' = between0And2Pi (atan2 (M₁₀, M₀₀))`, valid wherever `yaw' ≠ 0` -/
+theorem jacobian_correct_yaw (rotOf : Mat 3 3 ℝ → Mat 3 3 ℝ) (L : Mat 3 3 ℝ) (T p o : Vec 3 ℝ)
+    (C : Mat 6 6 ℝ) (hL : rotOf L = L) (k : Fin 3)
+    (hdom : mul3 L (smartInit o).R.get 0 0 < 0 ∨ mul3 L (smartInit o).R.get 1 0 ≠ 0) :
+    HasDerivAt (fun t => (poseMul rotOf L T p (upd o k t) C).2.1.get 2)
+      ((poseMul rotOf L T p o C).2.2.2.get (hi 2) (hi k)) (o k) := by
+  rw [jac_closed rotOf L T p o C hL]
+  simp only [ori_closed rotOf L T p _ C hL, rotation3DToEulerAngles]
+  have hx := hasDerivAt_M L o k 0 0
+  have hy := hasDerivAt_M L o k 1 0
+  have h := hasDerivAt_between0And2Pi_atan2 hx hy (by simpa [upd_self] using hdom)
+  simp only [upd_self] at h
+  convert h using 1
+  fin_cases k <;> simp [jacobian, hi]
+
+/-- the covariance attached to the transformed pose is `J C Jᵀ` with that Jacobian -/
+theorem pose_covariance_eq (rotOf : Mat 3 3 ℝ → Mat 3 3 ℝ) (L : Mat 3 3 ℝ) (T p o : Vec 3 ℝ) (C : Mat 6 6 ℝ) :
+    Matrix.of (poseMul rotOf L T p o C).2.2.1.get =
+      Matrix.of (poseMul rotOf L T p o C).2.2.2.get * Matrix.of C * (Matrix.of (poseMul rotOf L T p o C).2.2.2.get)ᵀ := by
+  simp only [poseMul]
+  exact propagate_eq _ _
 
 /-! ## (d) least-squares estimate covariance -/
 
@@ -379,6 +526,16 @@ example : Matrix.of ((fun g => g : Mat 2 2 ℝ → Mat 2 2 ℝ) (jtj (fun i j : 
     ((Matrix.of (fun i j : Fin 2 => if i = j then (1 : ℝ) else 0))ᵀ * Matrix.of (fun i j : Fin 2 => if i = j then (1 : ℝ) else 0)) = 1 := by
   ext i j
   fin_cases i <;> fin_cases j <;> simp [jtj, sumFin, Matrix.mul_apply, Fin.foldl_succ]
+
+/-- a pose attitude meeting the hypotheses of all three `jacobian_correct_*` angle rows at once:
+    `R = 1`, (roll, pitch, yaw) = (π/2, π/6, π/2): `M₂₀ = -1/2`, `M₂₁ = √3/2`, `M₁₀ = √3/2` -/
+example :
+    let o : Vec 3 ℝ := fun i => if i = 1 then Real.pi / 6 else Real.pi / 2
+    let M := mul3 id3 (smartInit o).R.get
+    (-1 < M 2 0 ∧ M 2 0 < 1 ∧ M 2 0 ≠ 0) ∧ (M 2 2 < 0 ∨ M 2 1 ≠ 0) ∧ (M 0 0 < 0 ∨ M 1 0 ≠ 0) := by
+  have h3 : Real.sqrt 3 ≠ 0 := by positivity
+  simp [smartInit, mul3, id3, rotX, rotY, rotZ, h3]
+  norm_num
 
 example : IsPSD (1 : Matrix (Fin 6) (Fin 6) ℝ) := by
   refine ⟨Matrix.transpose_one, fun x => ?_⟩
